@@ -79,6 +79,19 @@ func PoolSimBegin(c PoolConfig, seed uint64) {
 }
 func PoolSimEnd() (fresh, same, cross int) { return poolEnd() }
 
+// PoolSimSet switches the policy of the simulated pool without emptying it (a history of
+// calls under changing policies shares one pool state, like a long-lived process does).
+//go:norace
+func PoolSimSet(c PoolConfig) {
+	poolCfg = c
+	poolReplayBuf = nil
+	if c.Policy != PoolReal {
+		atomic.StoreUint32(&poolOn, 1)
+	} else {
+		atomic.StoreUint32(&poolOn, 0)
+	}
+}
+
 // PoolDropAll empties every simulated pool: what a GC cycle does to sync.Pool.
 //go:norace
 func PoolDropAll() {
